@@ -24,6 +24,7 @@ def ledger_entry(E):
     """vote ledger at the hand-over (Election.count has just set every tally to zero): the ghost total T (all tallies + the
     non-transferable total) is the non-transferable total"""
     return and_(ghost('T') == E.exhausted,
+                ghost('Tlog') == V_of_int(E.electionProfile.nBallots),      # "the step before the first": the ballots cast
                 forall('ref:droop.candidate.Candidate', lambda c: implies(in_election(c), c.vote == E.V0)))
 
 
@@ -73,7 +74,7 @@ def wigm_prf_count_ledger(self: 'any_rule'):
     modifies_all(Candidate, 'state', 'pending', 'vote')
     modifies_all(Ballot, 'index', 'weight')
     modifies(E, 'quota', 'exhausted', 'round', 'surplus')
-    modifies_ghost('nH', 'nE', 'nD', 'nP', 'nlog', 'lasttag', 'lastmsg', 'T', 'G')
+    modifies_ghost('nH', 'nE', 'nD', 'nP', 'nlog', 'lasttag', 'lastmsg', 'T', 'G', 'Tlog')
 
 
 @contract('droop.rules.scotland.Rule.count', props=['C01', 'C09'], site_props=['C02', 'C04', 'C06', 'C07'], ledger=True)
@@ -89,7 +90,7 @@ def scotland_count(self: 'any_rule'):
     modifies_all(Candidate, 'state', 'pending', 'vote')
     modifies_all(Ballot, 'index', 'weight')
     modifies(E, 'quota', 'exhausted', 'round', 'surplus')
-    modifies_ghost('nH', 'nE', 'nD', 'nP', 'nlog', 'lasttag', 'lastmsg', 'T', 'G')
+    modifies_ghost('nH', 'nE', 'nD', 'nP', 'nlog', 'lasttag', 'lastmsg', 'T', 'G', 'Tlog')
 
 
 @loops(['droop.rules.wigm_prf.Rule.count', 'droop.rules.scotland.Rule.count'], anchor='while#1')
@@ -139,7 +140,7 @@ def wigm_count(self: 'WigmRule'):
     modifies_all(Candidate, 'state', 'pending', 'vote')
     modifies_all(Ballot, 'index', 'weight')
     modifies(E, 'quota', 'exhausted', 'round', 'surplus')
-    modifies_ghost('nH', 'nE', 'nD', 'nP', 'nlog', 'lasttag', 'lastmsg', 'T', 'G')
+    modifies_ghost('nH', 'nE', 'nD', 'nP', 'nlog', 'lasttag', 'lastmsg', 'T', 'G', 'Tlog')
 
 
 @specfn
@@ -208,7 +209,7 @@ def mpls_count(self: 'MplsRule'):
     modifies_all(Candidate, 'state', 'pending', 'vote')
     modifies_all(Ballot, 'index', 'weight')
     modifies(E, 'quota', 'exhausted', 'round', 'surplus')
-    modifies_ghost('nH', 'nE', 'nD', 'nP', 'nlog', 'lasttag', 'lastmsg', 'T', 'G', 'Tm')
+    modifies_ghost('nH', 'nE', 'nD', 'nP', 'nlog', 'lasttag', 'lastmsg', 'T', 'G', 'Tm', 'Tlog')
 
 
 @loops('droop.rules.mpls.Rule.count', anchor='while#1')
@@ -242,7 +243,7 @@ def cfer_count(self: 'any_rule'):
     modifies_all(Candidate, 'state', 'pending', 'vote')
     modifies_all(Ballot, 'index', 'weight')
     modifies(E, 'quota', 'exhausted', 'round', 'surplus')
-    modifies_ghost('nH', 'nE', 'nD', 'nP', 'nlog', 'lasttag', 'lastmsg', 'T', 'G')
+    modifies_ghost('nH', 'nE', 'nD', 'nP', 'nlog', 'lasttag', 'lastmsg', 'T', 'G', 'Tlog')
 
 
 @contract('droop.rules.cfer.Rule.count', props=['C01', 'C09'], site_props=['C02', 'C04', 'C06', 'C07'], ledger=True)
@@ -259,7 +260,7 @@ def cfer_batch_count(self: 'any_rule'):
     modifies_all(Candidate, 'state', 'pending', 'vote')
     modifies_all(Ballot, 'index', 'weight')
     modifies(E, 'quota', 'exhausted', 'round', 'surplus')
-    modifies_ghost('nH', 'nE', 'nD', 'nP', 'nlog', 'lasttag', 'lastmsg', 'T', 'G')
+    modifies_ghost('nH', 'nE', 'nD', 'nP', 'nlog', 'lasttag', 'lastmsg', 'T', 'G', 'Tlog')
 
 
 @loops('droop.rules.cfer.Rule.count', anchor='for#3')
